@@ -82,7 +82,7 @@ def copeland_winner(instance):
     raw_scores = copeland_scores(instance)
     scores = dict()
     for a in raw_scores:
-        scores[a] = sum(raw_scores[a].values())
+        scores[a] = sum(1 for margin in raw_scores[a].values() if margin > 0)
     best_score = max(scores.values())
     return {a for a in scores if scores[a] == best_score}
 
